@@ -163,9 +163,14 @@ def check(R, F):
         ('trailing-octets', r'^Reader::at_eom\(arg2\.received\) in \[0\]$', None, 1, HMWC),
         ('query-without-question', r'^discr\(arg2\.question\) in \[0\]$', None, 1, HANDLE_QUERY),
     ]
+    # conditions evaluated inside closures (a scan loop written as `try_for_each(|..| ..)`) are not visible here
+    closure_scan = any(callee_name(t).endswith(('Reader::<\'a>::peek_rr', 'PeekRr::<\'_, \'_>::rr_type')) or 'peek_rr' in callee_name(t) for c in F.closures_of(HMWC) for b, t in c.calls())
     for name, dre, tre, n, fp in expected:
         hits = has(dre, tre, fp)
         fn = F.fn(fp)
+        if len(hits) < n and closure_scan and fp == HMWC and name in ('record-undelimitable', 'opt-or-tsig-outside-additional'):
+            R.bad('formerr-arm', '%s|%s' % (fp, name), fn.where(), 'part of the record scan runs inside a closure; the %s condition cannot be located there: shape not recognised' % name)
+            continue
         R.require(len(hits) >= n, 'formerr-arm', '%s|%s' % (fp, name), fn.where(hits[0][1]) if hits else fn.where(),
                   '%d set_rcode(FORMERR) site(s) directly controlled by the %s condition' % (len(hits), name),
                   'no set_rcode(FORMERR) call is controlled by the %s condition (expected %d): that malformed input is no longer answered with FORMERR' % (name, n))
